@@ -78,7 +78,8 @@ pub fn scenarios(tier: Tier) -> Vec<ScenarioDef> {
     let mut defs = Vec::new();
     // (recorders, incs each, probes)
     let mut ladder = vec![(2usize, 1usize, 1usize), (2, 2, 2), (3, 1, 2)];
-    if tier == Tier::Thorough { ladder.push((3, 2, 2)); ladder.push((2, 3, 2)); }
+    ladder.push((2, 3, 2));
+    if tier == Tier::Thorough { ladder.push((3, 2, 2)); }
     for (idx, &(r, i, p)) in ladder.iter().enumerate() {
         let spec = Spec { recorders: r, incs: i, probes: p, light: false };
         let threads = r + 1;
